@@ -21,17 +21,27 @@ CFLAGS = ["-std=c11", "-O1", "-g", "-mavx2", "-mfma", "-fsanitize=address,undefi
           "-Werror=int-conversion", "-Dmalloc=vf_malloc", "-Dfree=vf_free"]
 
 
-def init_val(argidx, i, pattern=0):
+def init_val(argidx, i, pattern=0, unsigned=False):
+    if unsigned:
+        return ((argidx * 7 + i * 3 + 1) % 11) if pattern == 0 else (i % 2) + ((argidx + i) % 3)
     if pattern == 0:
         return ((argidx * 7 + i * 3 + 1) % 11) - 5
     return (1 if (argidx + i) % 3 else -1) * ((i % 2) + 0)
 
 
-def conc_data(argorder, pattern=0):
+def conc_data(argorder, pattern=0, unsigned=()):
     def data(name, i):
-        return Poly.const(init_val(argorder[name], i, pattern))
+        return Poly.const(init_val(argorder[name], i, pattern, name in unsigned))
 
     return data
+
+
+def unsigned_args(proc_ir):
+    out = set()
+    for a in proc_ir.args:
+        if a.type.is_numeric() and basetype_name(a.type) in ("UINT8", "UINT16"):
+            out.add(str(a.name))
+    return out
 
 
 def basetype_name(ty):
@@ -79,7 +89,10 @@ def make_driver(proc_ir, h, valuations, hname, pattern=0):
          'void *vf_malloc(size_t n){ vf_live++; vf_allocs++; return malloc(n ? n : 1); }',
          'void vf_free(void *p){ if(!p){ vf_bad_free++; return; } vf_live--; free(p); }',
          'static double vf_init(int a, long i){ return (double)(((a*7 + i*3 + 1) % 11) - 5); }' if pattern == 0 else
-         'static double vf_init(int a, long i){ return (double)((((a+i)%3)?1:-1) * (i%2)); }']
+         'static double vf_init(int a, long i){ return (double)((((a+i)%3)?1:-1) * (i%2)); }',
+         'static double vf_initu(int a, long i){ return (double)((a*7 + i*3 + 1) % 11); }' if pattern == 0 else
+         'static double vf_initu(int a, long i){ return (double)((i%2) + ((a+i)%3)); }']
+    uns = unsigned_args(proc_ir)
     metas = []
     for k, (ctrl, lay, cfg0) in enumerate(valuations):
         it = interp.Interp()
@@ -119,7 +132,7 @@ def make_driver(proc_ir, h, valuations, hname, pattern=0):
             n = len(st.cells)
             ai = argorder[nm]
             body.append(f"  {bt} *{nm}_b = ({bt}*)malloc(sizeof({bt}) * {max(n, 1)});")
-            body.append(f"  for (long i = 0; i < {n}; i++) {nm}_b[i] = ({bt})vf_init({ai}, i);")
+            body.append(f"  for (long i = 0; i < {n}; i++) {nm}_b[i] = ({bt}){'vf_initu' if nm in uns else 'vf_init'}({ai}, i);")
             if "struct" in cty:
                 strides = ", ".join(str(s) for s in view.strides)
                 call_args.append(f"({cty}){{ {nm}_b + {view.off}, {{ {strides} }} }}")
@@ -215,7 +228,7 @@ def _build_and_run(c, h, driver, hname, cc, extra_flags, keep, timeout, extra_fi
 
 def expected_runs(proc_ir, valuations, pattern=0):
     argorder = {str(a.name): i for i, a in enumerate(proc_ir.args)}
-    data = conc_data(argorder, pattern)
+    data = conc_data(argorder, pattern, unsigned_args(proc_ir))
     out = []
     for (ctrl, lay, cfg0) in valuations:
         # real-valued config fields start at 3 (see make_driver)
